@@ -4,7 +4,7 @@ import vlib
 
 PROOFS = ["C05/Refuted.vo", "C05/ProofsBase.vo", "C05/ProofsChol.vo", "C05/ProofsLdl.vo", "C05/ProofsHouse.vo", "C05/ProofsGivens.vo",
           "C05/ResidProofs.vo", "C05/ProofsHouse2.vo", "C05/ProofsBlock.vo", "C05/ProofsTrace.vo", "C05/ProofsHess.vo",
-          "C05/ProofsGS.vo", "C05/ProofsLdl2.vo", "C05/ProofsChol2.vo", "C05/ProofsTridiag.vo", "C05/ProofsBidiag.vo", "C05/ProofsTridiag2.vo", "C05/ProofsOpts.vo", "C05/ProofsBand.vo"]
+          "C05/ProofsGS.vo", "C05/ProofsLdl2.vo", "C05/ProofsChol2.vo", "C05/ProofsTridiag.vo", "C05/ProofsBidiag.vo", "C05/ProofsTridiag2.vo", "C05/ProofsOpts.vo", "C05/ProofsBand.vo", "C05/ProofsTraceTie.vo"]
 # round 3: optional correspondence files of the extra streams (Float32 paths, re-derived step traces)
 EXTRA_STREAMS = [("cases32", "C05/Corr32", "case32", "correspondence C05.Corr32 (binary32 replay of the Float32/Real32 paths)"),
                  ("tcases", "C05/CorrTrace", "tcase", "correspondence C05.CorrTrace (re-derived step trace of an iterative routine)")]
@@ -19,13 +19,22 @@ PARTIAL = ("Theorems (over R, all sizes) cover the direct routines: Cholesky (so
            "Hessenberg) and the bidiagonalisation at HEAD (U, V orthogonal, U B V^T = A, B upper bidiagonal). They are about the hand-written model coq/C05/Model.v, tied to the Go code by bit-exact replay on "
            "primitive floats (Float64 fast path and Real64 generic path). The tridiagonalisation at HEAD is proved as well (every n, every "
            "symmetric A: U orthogonal, U T U^T = A, T symmetric tridiagonal; via the symmetric rank-2 update identity "
-           "A - nu w^T - w nu^T = P A P proved for every size). The iterative routines (QR algorithm, SVD, eigensystem, msqrt, msqrtInv) have no "
-           "closed model: the trace-machine invariant (any sequence of valid Givens/reflector steps preserves U H U^T resp. "
-           "U B V^T and orthogonality) is proved but NOT tied to the Go iteration (step parameters are not logged); every run "
-           "is decided by the exact residual checker C05.Resid (Coq, integer arithmetic, soundness lemma proved) demanding the "
-           "full contract on the generated families incl. dense inputs of every size 1..8; convergence, termination, sorting "
-           "and sign normalisation are not proved for all inputs. The step from exact arithmetic to binary64 is bounded per "
-           "sampled case only.")
+           "A - nu w^T - w nu^T = P A P proved for every size). The banded Givens shortcuts equal the full rotation on banded input; the factors do not depend on which "
+           "accumulators (ComputeU / ComputeV) are requested. The Float32 / Real32 paths of the Cholesky family are replayed "
+           "bit-exactly on a binary32 carrier (forced-PD mixes float64 and float32 and is written out separately in Corr32.v; "
+           "no theorem is stated about that variant). The iterative routines (QR algorithm symmetric and Francis, SVD; "
+           "eigensystem, msqrt, msqrtInv on top of them) have no closed model: the trace-machine invariant (any sequence of "
+           "valid Givens/reflector steps preserves U H U^T resp. U B V^T and orthogonality) is proved and tied per run by a "
+           "re-derived trace (lock-step copy of the control skeleton in the harness calling the same exported primitives, "
+           "final factors bit-equal to the library's, steps replayed on the float models inside Coq, every logged (c,s) / "
+           "(beta,nu) checked in exact dyadic arithmetic: |c^2+s^2-1| <= 8u, beta = 0 or |beta nu^T nu - 2| <= (16+4 len)u); "
+           "the skeleton copy is hand-written (a change of the library's control flow shows as a bit mismatch, not as a "
+           "proof failure), traces longer than 250 steps and runs that do not converge are skipped, and the accumulation of "
+           "the per-step rounding defects over a trace is bounded per step only (no theorem for the product). Every run of "
+           "every iterative routine is additionally decided by the exact residual checker C05.Resid (Coq, integer arithmetic, "
+           "soundness lemma proved) demanding the full contract on the generated families incl. dense inputs of every size "
+           "1..8; convergence, termination, sorting and sign normalisation are not proved for all inputs. The step from exact "
+           "arithmetic to binary64 is bounded per sampled case only.")
 KF_PROPOSED = os.path.join(vlib.ROOT, "corpus/C05/known_findings_proposed.json")
 CORPUS = os.path.join(vlib.ROOT, "corpus/C05/corpus.json")
 
@@ -51,9 +60,21 @@ def pred_qr_hang_prone(inp):
     return sym or halfint
 
 
+def pred_resid_within_stop_rule(inp):
+    """F-MSQRT-STOP: the reported residual is explained by the stopping rule |dX|_F^2 <= 1e-8 (residual about
+    max|A| * |dX|^2): at most n * max(1, max|A|) * 2^-24.  A larger residual is NOT this finding."""
+    r, c, v = _mat(inp)
+    try:
+        resid = float(str(inp.get("_failure", "")).split()[-1])
+    except (ValueError, IndexError):
+        return False
+    return r >= 1 and resid == resid and resid <= r * max(1.0, max(abs(x) for x in v)) * 2.0 ** -24
+
+
 PREDS = {
     "n_ge2": lambda inp: _mat(inp)[0] >= 2,
     "qr_hang_prone": pred_qr_hang_prone,
+    "resid_within_stop_rule": pred_resid_within_stop_rule,
     # set by the harness on an svd call that did not return: the Householder bidiagonal form of
     # the input has B[k,k] == 0 exactly with B[k-1,k] != 0 (computed by the library's own routine)
     "svd_zero_diag_block_end": lambda inp: bool((inp.get("diag") or {}).get("zero_diag_block_end")),
@@ -70,8 +91,10 @@ def findings():
     return fs
 
 
-def is_known(site, cls, inp):
-    """narrow match: routine (site), failure class and a predicate on the concrete input"""
+def is_known(site, cls, inp, failure=None):
+    """narrow match: routine (site), failure class and a predicate on the concrete input (+ reported failure)"""
+    if failure is not None and isinstance(inp, dict):
+        inp = dict(inp, _failure=failure)
     for f in findings():
         m = f.get("match", {})
         if site not in m.get("kinds", []) or cls not in m.get("classes", []):
@@ -121,6 +144,8 @@ def run_hunt(ctx, binary, direct, iters, n):
 def run(ctx):
     ctx.cov["trusted_base"] = vlib.TRUSTED_BASE_COMMON + [
         "Coq primitive floats (binary64) reproduce Go float64 + - * / sqrt and comparisons; Go math.Pow(x,2) = x*x outside the subnormal range; Go amd64 does not fuse multiply-add",
+        "binary32: Go float32 + - * / sqrt = SpecFloat.binary_normalize 24 128 of the binary64 result (double rounding innocuous, 53 >= 2*24+2)",
+        "harness/c05/trace.go: hand-written lock-step copy of the control skeleton of qrAlgorithm / svd (validated per run by bit-equality with the library's result)",
         "axioms: see 'print_assumptions' (Coq Reals: ClassicalDedekindReals.sig_forall_dec, sig_not_dec, functional_extensionality_dep)"]
     ctx.cov["partial"] = PARTIAL
     ok, failures = vlib.proof_stage(ctx, TARGETS, PROPS)
@@ -142,7 +167,14 @@ def run(ctx):
     for name, _, key, what in EXTRA_STREAMS:
         if not os.path.exists(os.path.join(ctx.dir, name + ".meta.json")):
             continue
-        _, xraw, xbad = eval_stream(ctx, name)
+        xmeta, xraw, xbad = eval_stream(ctx, name)
+        # F-FPD-INPLACE is observed by the harness on the implementation (aliased call vs call on fresh buffers);
+        # the aliased behaviour itself is modelled as coded (Corr32.fpd32_inplace) and replayed bit-exactly
+        nalias = (xmeta.get("histogram") or {}).get("fpd-inplace-differs-from-fresh", 0)
+        if name == "cases32" and nalias:
+            for f in findings():
+                if f["id"] == "F-FPD-INPLACE":
+                    ctx.known_finding(f["id"], "%s [%d occurrence(s) this run]" % (f["what"], nalias))
         for i in xbad[:5]:
             ctx.violation({key: xraw[i], "obligation": what}, False,
                           "model and implementation disagree (%s): %s" % (name, json.dumps(xraw[i])[:300]))
@@ -150,7 +182,7 @@ def run(ctx):
     unexplained = []    # (replay object, found_input, text)
 
     def account(site, cls, inp, failure, extra):
-        f = is_known(site, cls, inp)
+        f = is_known(site, cls, inp, failure)
         if f:
             known.setdefault(f["id"], [f, 0])[1] += 1
             return True
@@ -173,7 +205,7 @@ def run(ctx):
     h = run_hunt(ctx, binary, hd + hr_d, hr_i, nh)
     nd = len(hd)
     explained_direct = set()
-    for r in h.get("handed", []):
+    for r in (h.get("handed") or []):
         inp = r.get("iter") if r["is_iter"] else r.get("direct")
         from_corr = (not r["is_iter"]) and r["idx"] < nd
         if r["found"]:
@@ -233,7 +265,7 @@ def replay(ctx, path):
         if rp["rcase"].get("iter"):
             iters.append(rp["rcase"]["iter"])
     h = run_hunt(ctx, binary, direct, iters, 0)
-    fails = [r for r in h.get("handed", []) if r["found"]]
+    fails = [r for r in (h.get("handed") or []) if r["found"]]
     print("model and Coq residual checker accept the replayed case: %s" % agree)
     for r in fails:
         print("property oracle on the implementation: %s" % r["failure"])
